@@ -66,6 +66,9 @@ def gen(seed):
             fn = rng.choice(FUNCS)
         pk = {'src': rng.choice(TARGETS), 'dst': rng.choice(TARGETS), 'fn': fn, 'last': rng.random() < 0.5,
               'version': 0, 'data': data, 'gap': rng.choice([0, 0, 0.001, 0.01])}
+        if rng.random() < 0.15:
+            # the stream stalls in the middle of this frame (a slow or congested peer)
+            pk['stall'] = [rng.random(), rng.choice([0.3, 1.2, 3.0])]
         if r > 0.92:
             pk['version'] = rng.choice([1, 2, 3])
         elif r > 0.88:
@@ -135,11 +138,21 @@ def execute(ctx):
         ok = p['version'] == 0 and p['fn'] in FUNCS and p['dst'] in TARGETS and p['src'] in TARGETS
         legal.append(ok)
 
+    stall_total = sum(p['stall'][1] for p in down if p.get('stall'))
+
     def peer_feed(sock):
         for p in down:
             if p['gap']:
                 P.sim_sleep(p['gap'])
-            sock.feed(frame(p['src'], p['dst'], p['fn'], p['last'], p['version'], p['data']))
+            fr = frame(p['src'], p['dst'], p['fn'], p['last'], p['version'], p['data'])
+            if p.get('stall'):
+                cut = max(1, min(len(fr) - 1, int(p['stall'][0] * len(fr))))
+                sock.feed(fr[:cut])
+                P.sim_sleep(p['stall'][1])
+                sock.feed(fr[cut:])
+                ctx.probe('stream stalled in the middle of a frame')
+            else:
+                sock.feed(fr)
             ctx.obs('fed', p['fn'], len(p['data']))
 
     def run_senders(ups, send_one):
@@ -185,7 +198,7 @@ def execute(ctx):
                 def consumer(fn):
                     while len(got[fn]) < want[fn]:
                         try:
-                            pk = cpx.receivePacket(CPXFunction(fn), timeout=5.0)
+                            pk = cpx.receivePacket(CPXFunction(fn), timeout=5.0 + stall_total)
                         except _q.Empty:
                             return
                         got[fn].append((pk.source.value, pk.destination.value, pk.function.value, bool(pk.lastPacket),
@@ -206,9 +219,9 @@ def execute(ctx):
                     pk.lastPacket = u['last']
                     cpx.sendPacket(pk)
                 run_senders(plan['up'], send_cpx)
-                feeder.join(60.0)
+                feeder.join(60.0 + stall_total)
                 for t in consumers:
-                    t.join(30.0)
+                    t.join(30.0 + stall_total)
                 P.sim_sleep(0.5)
                 st['sock'] = sock
                 st['unconsumed'] = {fn: q.qsize() for fn, q in cpx._router._rxQueues.items()}
@@ -233,12 +246,12 @@ def execute(ctx):
                         drv.cpx.sendPacket(pk)
                 run_senders(plan['up'], send_any)
                 want = sum(1 for p, ok in zip(down, legal) if ok and p['fn'] == 3 and len(p['data']) > 0)
-                t_end = sim.now + 30.0
+                t_end = sim.now + 30.0 + stall_total
                 while len(crtp_rx) < want and sim.now < t_end:
                     pk = drv.receive_packet(0.5)
                     if pk is not None:
                         crtp_rx.append((pk.header, bytes(pk.data)))
-                feeder.join(60.0)
+                feeder.join(60.0 + stall_total)
                 P.sim_sleep(0.5)
                 while True:
                     pk = drv.receive_packet(0)
